@@ -204,6 +204,51 @@ def gen_script(K, extra):
     return g
 
 
+POPS = '@_ZN6osmium2io6detail13queue_wrapperINSt7__cxx1112basic_stringIcSt11char_traitsIcESaIcEEEE3popEv'
+PSETV = '@_ZNSt7promiseImE9set_valueEOm'
+PSETX = '@_ZNSt7promiseImE13set_exceptionENSt15__exception_ptr13exception_ptrE'
+
+
+def setup_write_stage(I):
+    for sym in (POPS, PSETV, PSETX):
+        if sym not in I.m.funcs: raise Exception('%s not found in the IR (inlined?)' % sym)
+    I.overrides[POPS] = lambda I_, ret, this: I_.call('@verif_model_pop_string', [ret, this])
+    I.overrides[PSETV] = lambda I_, this, v: I_.call('@verif_rec_size_value', [this, v])
+    I.overrides[PSETX] = lambda I_, this, e: I_.call('@verif_rec_size_exception', [this, e])
+
+
+def h_write_stage(I, job):
+    """WriteThread::operator() in one thread: scripted input queue (data, end of data, or a relayed encoder failure), mock compressor whose write / close may throw"""
+    N = job['n']
+    def small(name, hi):
+        v = I.named(name, 8); I.assume(z3.ULE(I.term(v, 8), hi)); return I.concretize(v, name)
+    pt = small('pop_throw_at', N); end_at = small('end_at', N); wt = small('write_throw_at', N); ct = small('close_throws', 1)
+    pta = pt if pt < N else 99; wta = wt if wt < N else 99
+    out = I.new_obj(64, 'rec', 'heap'); tail = I.new_obj(8, 'tail', 'heap')
+    n = I.concretize(I.call('@verif_write_thread', [pta, end_at, wta, ct, out, 64, tail]), 'n')
+    got = bytes(I.concretize(I.load(out + k, i8), 'ev') for k in range(min(n, 64))).decode()
+    notif = I.concretize(I.load(tail, i32), 'notification'); shut = I.concretize(I.load(tail + 4, i32), 'shutdown')
+    I.observe('events', got)
+    # reference: every data item written in order; after the end marker close() then the file size as the promise value; any failure -> exactly one
+    # promise exception, the notification flag and a shut-down queue (producers must not block for ever), nothing written afterwards
+    ev = ''; j = 0; w = 0; failed = False
+    while True:
+        ev += 'p'
+        if j == pta: failed = True; break
+        if j >= end_at: break
+        ev += 'w'
+        if w == wta: failed = True; break
+        w += 1; j += 1
+    if not failed:
+        ev += 'c'
+        if ct: failed = True
+    ev += 'x' if failed else 'V'
+    if got != ev: raise Finding('relay', 'write stage does %r, the relay law requires %r (p pop, w write, c close, V size delivered, x exception delivered)' % (got, ev))
+    if failed and not (notif and shut): raise Finding('relay', 'after a failure the notification flag (%d) is not set or the input queue is not shut down (%d): the producer would never learn of the error / block on a full queue' % (notif, shut))
+    if not failed and (notif or shut): raise Finding('relay', 'notification flag / queue shutdown without a failure')
+    I.reach('end')
+
+
 def bzip2_harness(tier):
     q = tier == 'quick'
     return Harness('bzip2_compressor', 'io', h_bzip2_compressor, jobs=[dict(calls=7, fd=f, sync=sy, writes=w) for f in (1, 5) for sy in (0, 1) for w in ((0, 1) if q else (0, 1, 2))],
@@ -226,4 +271,8 @@ def harnesses(tier):
                 bounds='<= 7 library/OS calls, one write of 0..3 bytes', testgen=gen_script(7, lambda rnd: {'size_a': rnd.randint(0, 3)})),
     ]
     hs.append(bzip2_harness(tier))
+    N = 3 if q else 4
+    hs.append(Harness('write_stage', 'relay', h_write_stage, jobs=[dict(n=N)], setup=setup_write_stage, native_ok=False,
+                      desc='WriteThread::operator() driven in one thread: the input queue delivers data items, the end-of-data marker, or a relayed encoder exception at a symbolic position; the (mock) compressor fails at a symbolic write or in close(): every item is written in order, close() follows the end marker, the promise gets the file size exactly once; after any failure exactly one exception is put into the promise, the notification flag is set, the input queue is shut down and nothing more is written',
+                      bounds='<= %d items; promise and queue-pop operations at the stage boundary are recorders / scripts; threads are not started' % N))
     return hs
